@@ -14,7 +14,15 @@ import (
 	"golang.org/x/tools/go/ssa/ssautil"
 )
 
-const repoDir = "/repo"
+// repoDir: the tree under test.  Always /repo for the registered commands; VERIF_REPO lets a
+// background sweep run against a snapshot of /repo while /repo itself is being patched by
+// seeded-change runs.
+var repoDir = func() string {
+	if d := os.Getenv("VERIF_REPO"); d != "" {
+		return d
+	}
+	return "/repo"
+}()
 const modPath = "github.com/gdamore/tcell/v2"
 
 var verifDir = func() string {
